@@ -376,6 +376,17 @@ func (e *Engine) verifyPass(fn *ssa.Function, c *Contract, pre map[string]string
 	}
 	// ghost frame: ghost state not listed in `modifies` is unchanged at every return
 	tr.ghostFrames(f, c, args, binds, rets)
+	// an `at call Callee#k` clause that names no call site of the function would silently assert nothing (without an
+	// ordinal the clause quantifies over all calls of that callee, possibly none)
+	for i, ac := range c.AtCalls {
+		if ac.K != 0 && !tr.atMatched[i] && (prop == "" || ac.Clause.Prop == "" || ac.Clause.Prop == prop) {
+			k := ""
+			if ac.K != 0 {
+				k = fmt.Sprintf("#%d", ac.K)
+			}
+			tr.errorf("%s: `at call %s%s` [%s] matches no call site", fn.Name(), ac.Callee, k, ac.Clause.Label)
+		}
+	}
 	// vacuity: some return must be reachable under the preconditions
 	sort.Slice(retRs, func(i, j int) bool { return len(tr.script(retRs[i], false)) < len(tr.script(retRs[j], false)) })
 	for i, r := range retRs {
